@@ -21,10 +21,14 @@ THEOREMS = {
     "Dawgs.Props.C05Facts": [
         "Dawgs.C05.Facts.table_nonempty",
         "Dawgs.C05.Facts.no_order_sensitive_range",
+        "Dawgs.C05.Facts.exempt_have_reasons",
         "Dawgs.C05.Facts.justified_all_present",
         "Dawgs.C05.Facts.parameter_map_copied",
         "Dawgs.C05.Facts.caller_query_only_copied",
         "Dawgs.C05.Facts.generic_shape",
+        "Dawgs.C05.Facts.no_nondeterminism_sources",
+        "Dawgs.C05.Facts.inputs_not_written",
+        "Dawgs.C05.Facts.unguarded_partial_sites_known",
         "Dawgs.C05.Facts.kind_mapper_locked",
         "Dawgs.C05.Facts.kind_mapper_check_then_act",
         "Dawgs.C05.Facts.kind_mapper_single_writer",
@@ -149,35 +153,138 @@ SPEC = {
                     "deepness of cypher.Copy field by field is C11's theorem (copy_equal_and_fresh over the regenerated schema); C05 uses the minimal address model and checks AST immutability at run time",
                     "concurrency: one InMemoryKindMapper is shared by the whole run; the race probe asserts NEW kinds from 16 goroutines (locked since the fix)"],
     "extra_coverage": extra_coverage,
-    "explanation": "Lean proof for walk termination / error discipline, copy isolation (minimal models shared with C11) and iteration-order independence of every "
-                   "map range (typed extractor + generic permutation lemma); search only for panic-freedom, bounded time, run-to-run and concurrent determinism and input immutability",
+    "explanation": "Lean proofs: walker termination / error discipline, copy isolation, order-independence lemmas, kind-mapper contract over the lock-level LTS. Kernel-checked "
+                   "typed tables: every map range order-insensitive or exempt with reason, no other nondeterminism source, no write into AST / caller's parameter map, kind "
+                   "mapper lock discipline, unguarded partial operations pinned. Trusted: Go semantics for the last step of determinism and side-effect freedom. Searched only: "
+                   "panic-freedom (nil dereferences, unverified guards), bounded time, end-to-end byte determinism and input immutability as confirmation",
 }
 
 MANIFEST = {
     "category": "other",
-    "technique": "Lean 4 proofs of the structural ingredients (walker terminates and stops at the first error for every AST and visitor; deep copy is isolated; every map "
-                 "iteration in the translator is order-independent, by a typed extractor + permutation lemma + kernel-checked table) combined with a differential tie of the "
-                 "walker model to the real walk.Generic and a 26-fold repeated/concurrent translation search under recover, time budget and (thorough) the race detector",
-    "text": "PARTIAL. Proved in Lean for all inputs: walk.Generic performs at most 2 iterations per AST node and never calls back after a callback left an error, which it "
-            "returns (model tied to the real generic walker on exhaustive small trees and random scripts); writes into a deep copy cannot reach the original (Optimize uses the "
-            "caller's query only through cypher.Copy, Translate only through Optimize — extracted facts); every `range` over a map in translate/, optimize/, format/, pgutil and "
-            "the supporting packages is map-insert, set-insert, sorted-before-use, lookup-only or a commutative fold (order-free by fold_perm_invariant), except three justified "
-            "loops; NewTranslator copies the caller's parameter map and nothing writes through it; the in-memory kind mapper gives every kind exactly one id under every "
-            "interleaving of AssertKinds / Put (assert_kinds_idempotent over the lock-level LTS; check-then-act in one critical section is an extracted fact). NOT proved: absence of panics and hangs in the 22k-line translator, run-to-run "
-            "and concurrent determinism of the whole, deep immutability of parameter values — these are searched: every corpus, generated, mutated, builder-built and "
-            "hand-assembled AST is translated 10x sequentially and 16x concurrently against one shared kind mapper with byte comparison and before/after comparison of the inputs.",
-    "note": "Five defects found by this check are fixed (known_findings.json, status fixed): F10 nil-parameter panic (shared with C06); panics on two ordinary parsed queries "
-            "(quantifier without WHERE; quantifier in a query part without MATCH); MapStringAnyToJSONB rewriting nil slices inside the caller's nested map parameters; "
-            "pgutil.InMemoryKindMapper without a lock (concurrent CREATE with new kinds = fatal concurrent map writes) — the lock table is now a plain obligation "
-            "(kind_mapper_locked). Nil-dereference / index panics on hand-assembled or mutated ASTs that parser and builders never produce are outside the quantifier and are "
-            "counted in the evidence as information only. Trusted: Lean kernel, extractors, harness.",
+    "technique": "Lean 4 proofs of the structural ingredients + kernel-checked side conditions (`decide`) over TYPED fact tables regenerated from the sources "
+                 "(go/types extractor) for determinism and side-effect freedom + differential tie of the walker model + a 26-fold repeated/concurrent translation "
+                 "search under recover, time budget, coverage measurement of the unguarded partial operations and (thorough) the race detector",
+    "text": "STILL PARTIAL (category other), but the determinism and side-effect clauses are now reduced to ONE trusted step each. "
+            "PROVED in Lean for all inputs: walk.Generic does at most 2 iterations per AST node and never calls back after a callback left an error, which it returns "
+            "(model tied to the real generic walker); writes into a deep copy cannot reach the original; a fold over a map's entries is order-independent for every loop "
+            "shape used (fold_perm_invariant + 5 instances); the in-memory kind mapper gives every kind exactly one id under EVERY interleaving of AssertKinds/Put "
+            "(assert_kinds_idempotent over the lock-level LTS). "
+            "KERNEL-CHECKED on tables regenerated from the current sources: DETERMINISM — every `range` over a map in translate/, optimize/, format/, pgsql/ (+ cypher/, walk/, "
+            "pgutil) has an order-insensitive shape recognised by the extractor (writes only into another map/set, commutative accumulation, sorted before use, constant-result "
+            "test) or is one of three exempt loops with a stated reason (no_order_sensitive_range, exempt_have_reasons); there is NO select, go statement, clock, random, "
+            "sync.Map, reflective or iterator map traversal, %p, unsafe or environment read in those packages (no_nondeterminism_sources). TRUSTED STEP: a sequential Go program "
+            "without these constructs computes a function of its inputs. SIDE-EFFECT FREEDOM — no assignment, delete, mutating method or reflective setter in translate/, "
+            "format/, pgsql/ targets a cypher model value; every write into a map[string]any goes into a map made in the same function, the translation's result map, or a "
+            "field that only ever holds such maps; NewTranslator copies the caller's parameter map; Optimize uses the caller's query only through cypher.Copy and Translate "
+            "only through Optimize; the kind mapper is only read except AssertKinds from the CREATE builders, the one allowed effect (inputs_not_written, parameter_map_copied, "
+            "caller_query_only_copied). TRUSTED STEP: the typed syntactic classification sees every write (no aliasing of an input through a differently typed path; nested "
+            "parameter VALUES other than map[string]any are covered by the run-time deep comparison only). The kind mapper's lock table: every method touching the maps holds "
+            "the lock, check and allocation share one critical section (kind_mapper_locked, kind_mapper_check_then_act). "
+            "TOTALITY — NOT proved. Narrowed: of the partial operations of translate/ (single-value type assertions, slice indexes, slice expressions) 80 are structurally safe, "
+            "95 have a length test of the same expression somewhere in the function (not verified), 26 have no recognisable guard and are pinned by "
+            "unguarded_partial_sites_known; Go coverage instrumentation shows on every run which of the 26 the search executes under recover (21 now; the other 5 are "
+            "self-consistent assertions / sized copies, reason listed in the evidence). Nil dereferences, the 95 unverified guards, bounded time and the end-to-end "
+            "byte-identity of 10 sequential + 16 concurrent translations per case with before/after comparison of AST and parameters are SEARCHED ONLY: corpus, generated, "
+            "mutated, builder-built and hand-assembled ASTs, multi-path shapes, fresh-kind CREATEs against one shared mapper.",
+    "note": "Five defects found by this check are fixed in /repo (known_findings.json, status fixed). Panics on hand-assembled or mutated ASTs that parser and builders never "
+            "produce are outside the quantifier and counted as information only. Trusted: Lean kernel, the two extractors (go/ast, go/types), the harness, Go's semantics "
+            "for the two steps named above.",
 }
 
 
+# unguarded partial operations that the quick generators do not execute, with the reason they cannot fail
+UNREACHED_NOTES = {
+    ("translate/expansion.go", "rewriteBoundEndpointSeedReference"):
+        "case *pgsql.T: asserts the result of the recursive call on the dereferenced value to pgsql.T; the function's own `case pgsql.T` returns "
+        "exactly that type (self-consistent); executed only when a pointer-typed node sits inside a bound-endpoint constraint",
+    ("translate/path_functions.go", "resolvePathCompositeFieldReferences"):
+        "case *pgsql.T: asserts the result of the recursive call on the dereferenced value to pgsql.T, which the `case pgsql.T` arm of the same function returns",
+    ("translate/function.go", "Translator.translateCoalesceFunction"):
+        "arguments has length numArgs = len(functionInvocation.Arguments) and idx ranges over that slice, so numArgs-idx-1 is in bounds",
+}
+
+
+def totality_pass(tier, seed):
+    """Which of the unguarded partial operations of translate/ (Generated/C05_ranges.lean) does the search execute?
+    Go coverage instrumentation of package translate, suite c05 (quick generators), every translation under recover."""
+    out = {"measured": False}
+    t0 = time.time()
+    gen = os.path.join(verif.LEAN, "Dawgs", "Generated", "C05_ranges.lean")
+    try:
+        txt = open(gen).read()
+        a = txt.index("def unguardedPartialSites")
+        body = txt[a:txt.index("]\n\n", a)]
+        sites = re.findall(r'\("([^"]+)", (\d+), "([^"]+)", "(\w+)", "((?:[^"\\]|\\.)*)"', body)
+        counts = dict((k, int(v)) for k, v in re.findall(r'\("([a-z\-]+:[a-z\-]+)", (\d+)\)', txt[txt.index("def partialSiteCounts"):]))
+    except Exception as e:
+        out["error"] = "cannot read the generated table: %r" % (e,)
+        return out
+    work = os.path.join(verif.VERIF, "work", "C05cov")
+    import shutil
+    shutil.rmtree(work, ignore_errors=True)
+    os.makedirs(os.path.join(work, "cov"))
+    cover_bin = verif.HARNESS_BIN + "-cover"
+    rc, o = verif.sh(["go", "build", "-cover", "-coverpkg=.,github.com/specterops/dawgs/cypher/models/pgsql/translate", "-tags", "verif", "-o", cover_bin, "."],
+                     cwd=verif.HARNESS, env=verif.GOENV, timeout=1800)
+    if rc != 0:
+        out["error"] = "coverage build failed: " + o[-400:]
+        return out
+    ops = os.path.join(work, "ops")
+    verif.sh([verif.HARNESS_BIN, "c05", "gen", "-seed", str(seed), "-tier", "quick", "-ops", ops], env=verif.GOENV, timeout=600)
+    env = dict(verif.GOENV, GOCOVERDIR=os.path.join(work, "cov"))
+    verif.sh([cover_bin, "c05", "run", "-ops", ops, "-out", os.path.join(work, "impl")], env=env, timeout=3000)
+    prof = os.path.join(work, "cov.txt")
+    verif.sh(["go", "tool", "covdata", "textfmt", "-i=" + os.path.join(work, "cov"), "-o=" + prof], cwd=verif.HARNESS, env=verif.GOENV, timeout=600)
+    blocks = {}
+    try:
+        for l in open(prof):
+            m = re.match(r"(.+):(\d+)\.\d+,(\d+)\.\d+ \d+ (\d+)", l)
+            if m:
+                parts = m.group(1).split("/")
+                blocks.setdefault(parts[-2] + "/" + parts[-1], []).append((int(m.group(2)), int(m.group(3)), int(m.group(4))))
+    except Exception as e:
+        out["error"] = "no coverage profile: %r" % (e,)
+        return out
+    reached, unreached, unexplained = [], [], []
+    for f, line, fn, kind, expr in sites:
+        line = int(line)
+        inb = [c for (l0, l1, c) in blocks.get(f, []) if l0 <= line <= l1]
+        if inb:
+            hit = max(inb)
+        else:
+            prev = [(l0, c) for (l0, l1, c) in blocks.get(f, []) if l0 <= line]
+            hit = max(prev)[1] if prev else 0
+        if hit:
+            reached.append("%s:%d %s" % (f, line, fn))
+        else:
+            note = UNREACHED_NOTES.get((f, fn))
+            unreached.append({"site": "%s:%d %s %s %s" % (f, line, fn, kind, expr[:60]), "why_it_cannot_fail": note or "UNEXPLAINED"})
+            if not note:
+                unexplained.append("%s:%d %s" % (f, line, fn))
+    panics = sum(1 for l in verif.read_lines(os.path.join(work, "impl")) if l.startswith("cls=panic") and "label=text" in l or "label=builder" in l and l.startswith("cls=panic"))
+    out.update({"measured": True, "partial_operations_by_kind_and_guard": counts, "unguarded_sites": len(sites), "unguarded_sites_reached": len(reached),
+                "unguarded_sites_unreached": unreached, "unguarded_sites_unexplained": unexplained,
+                "panics_on_parser_or_builder_input_in_this_pass": panics, "wall_s": round(time.time() - t0, 1)})
+    return out
+
+
 def run(spec, tier, seed, replay):
-    """generic flow, then (thorough tier) the same search once more under the race detector"""
+    """generic flow, then the totality measurement, then (thorough tier) the same search once more under the race detector"""
     rc = flow.run_property(spec, tier, seed, replay)
-    if replay or tier != "thorough":
+    if replay:
+        return rc
+    tot = totality_pass(tier, seed)
+    p = os.path.join(verif.VERIF, "evidence", "C05.json")
+    ev = json.load(open(p))
+    ev["coverage"]["totality"] = tot
+    if tot.get("unguarded_sites_unexplained"):
+        ev["coverage"].setdefault("coverage_warnings", []).append("unguarded partial operations neither executed nor explained: " + ", ".join(tot["unguarded_sites_unexplained"]))
+    ev["wall_s"] = round(ev["wall_s"] + tot.get("wall_s", 0), 2)
+    open(p, "w").write(json.dumps(ev, indent=1))
+    print("totality pass: %d unguarded sites, %d executed by the search, %d not (%d unexplained), %.1fs" % (
+        tot.get("unguarded_sites", 0), tot.get("unguarded_sites_reached", 0), len(tot.get("unguarded_sites_unreached", [])),
+        len(tot.get("unguarded_sites_unexplained", [])), tot.get("wall_s", 0)), flush=True)
+    if tier != "thorough":
         return rc
     ctx = verif.Ctx("C05", tier, seed)
     t0 = time.time()
